@@ -115,12 +115,16 @@ def termKeyParse (key : Bytes) : Option (String × UInt8 × Bytes) :=
   | [_, f, ty :: _, t] => do pure ((← strOf? f), ty, t)
   | _ => none
 
-/-- EntryKeyParse for string terms: SplitN(key, 0, 4), then Split of the rest (term, docid).
-    Numeric terms (type 2, fixed 8 bytes) are outside `SKey`: `none`. -/
+/-- EntryKeyParse: SplitN(key, 0, 4); for a numeric term (type 2: eight fixed bytes, a separator,
+    the document id) `suffix[0:8]`, `suffix[9:]` — out of range (`none`, the Go code panics) when
+    the suffix is shorter than nine bytes; otherwise Split of the rest (term, docid). -/
 def entryKeyParse (key : Bytes) : Option (String × UInt8 × Bytes × String) :=
   match splitNulN 4 key with
   | [_, f, ty :: _, suffix] =>
-    if ty = 2 then none else
+    if ty = 2 then
+      (if suffix.length < 9 then none
+       else do pure ((← strOf? f), ty, suffix.take 8, (← strOf? (suffix.drop 9))))
+    else
     match splitNul suffix with
     | t :: doc :: _ => do pure ((← strOf? f), ty, t, (← strOf? doc))
     | _ => none
